@@ -42,7 +42,7 @@ def run(repo, tier) -> Result:
     check_state("C01", res, repo, formula_functions(repo))
     check_calculate_driver("C01", res, repo, want=("R-SKIP", "R-SWEEP", "R-SUBS"))
     check_resume("C01", res, repo.method("hexital.core.indicator", "Indicator", "_find_calc_index"), "self.candles", "membership", repo=repo)
-    check_append_order("C01", res, repo, parts=("indicator", "manager"))
+    check_append_order("C01", res, repo, parts=("indicator", "hexital", "manager"))
     check_merge("C01", res, repo)
     from ..driver import check_merge_callers
 
@@ -53,7 +53,11 @@ def run(repo, tier) -> Result:
 
     check_candle_geometry_pure("C01", res, repo)
     check_epoch("C01", res, repo)
-    check_collapse("C01", res, repo, want=("R-INTERVAL", "R-CONSERVE", "R-INVARIANT"))
+    check_collapse("C01", res, repo, want=("R-INTERVAL", "R-CONSERVE", "R-INVARIANT", "R-FILLPATH"))
+    # "with or without gap filling": the fill step is a function of the rebuilt list alone and complete on every pass
+    from ..manager_rules import check_fill
+
+    check_fill("C01", res, repo)
     from ..contracts import check_all
 
     check_all("C01", res, repo)
